@@ -32,13 +32,13 @@ U = "90478484-0988-45fc-91fe-757d90136892"
 SEG_TEMPLATES = ["cafe\u0301", "Ã©", "a", "a.b", "v1+", "a(b)", "[a]", "{N}", "{N:str}", "{N:int}", "{N:decimal}", "{N:uuid}", "{N:date}", "{N:any}",
                  "{N}-{M:int}", "p{N:int}s", "{N:str}.json", "{N:decimal}x", "id-{N:uuid}", "{N:date}T", "a|b", "a$", "^a", "a*"]
 VALID = {
-    "str": ["alice;v=2", ";semi", "x", "a.b", "é", "12", "a b", "x\ny", "%41", " ", "e\u0301", "\u1100\u1161", "caf\u00e9",
+    "str": ["alice;v=2", ";semi", ".", "..", "x" * 2100, "x", "a.b", "é", "12", "a b", "x\ny", "%41", " ", "e\u0301", "\u1100\u1161", "caf\u00e9",
             "Ã©", "cafÃ©", "â\x82¬", "Â", "a\x00b", "\x00", "\x7f\x1b"],  # text whose characters, read as Latin-1 bytes, would form UTF-8: it is text already, nothing is to be decoded again
     "int": ["0", "12", "007", "1" * 40, "1" * 400],
     "decimal": ["0", "100", "1.5", "10.50", "0.0", "000", "1.000", "100.0", "12345678901234567890.123"],
     "uuid": [U, "00000000-0000-0000-0000-000000000000"],
     "date": ["2021-03-07", "0001-01-01", "9999-12-31", "2024-02-29"],
-    "any": ["", "x", "a/b/c", "a\nb", "/", "\n", "nul\x00/in/it"],
+    "any": ["", "x", "seg/" * 520 + "end", "a/b/c", "a\nb", "/", "\n", "nul\x00/in/it"],
 }
 NEAR = {
     "str": ["", "a/b"],
